@@ -650,6 +650,7 @@ struct Sim {
         const int k = pick_alive();
         if (k < 0) return;
         Level& l = top();
+        const bool was_present = l.present[k];
         std::vector<int> set{k};
         if (l.present[k]) {
             const auto cl = l.reach(k, rng.coin());
@@ -661,7 +662,7 @@ struct Sim {
             if (l.present[x]) l.remove(x);
             note("R" + std::to_string(x));
         }
-        vh::log().obs(l.present[k] ? "op_remove_noop" : "op_remove");
+        vh::log().obs(was_present ? "op_remove" : "op_remove_noop");
         if (set.size() > 1) vh::log().obs("op_remove_with_relatives");
     }
     void op_destroy()
